@@ -140,7 +140,7 @@ class Evolver:
         if depth < 2:
             kinds += ["array", "map", "tuple", "ornull"]
             if allow_literal:
-                kinds += ["literal", "array-literal", "ornull-literal", "array-ornull", "map-ornull"]
+                kinds += ["literal", "array-literal", "ornull-literal", "array-ornull", "map-ornull", "ornull-array-literal"]
         k = force or self.pick(kinds)
         if k in ("array-ornull", "map-ornull"):
             inner = self.simple_type(depth + 2, allow_literal=False)
@@ -150,12 +150,14 @@ class Evolver:
             if k == "array-ornull":
                 return {"kind": "array", "element": nullable}
             return {"kind": "map", "key": {"kind": "base", "name": "string"}, "value": nullable}
-        if k in ("array-literal", "ornull-literal"):
+        if k in ("array-literal", "ornull-literal", "ornull-array-literal"):
             local: set = set()
             props = [self.new_property(local, depth + 2, allow_literal=False, optional=(i >= 2)) for i in range(self.draw(st.integers(2, 3)))]
             lit = {"kind": "literal", "value": {"properties": props}}
             if k == "array-literal":
                 return {"kind": "array", "element": lit}
+            if k == "ornull-array-literal":
+                lit = {"kind": "array", "element": lit}
             items = [lit, {"kind": "base", "name": "null"}]
             return {"kind": "or", "items": items if self.draw(st.booleans()) else items[::-1]}
         if k in ("ornull-first", "ornull-last"):
@@ -182,8 +184,10 @@ class Evolver:
         if k == "array":
             return {"kind": "array", "element": self.simple_type(depth + 1, allow_literal)}
         if k == "map":
-            return {"kind": "map", "key": {"kind": "base", "name": self.pick(["string", "DocumentUri", "URI"])},
+            return {"kind": "map", "key": {"kind": "base", "name": self.pick(["string", "DocumentUri", "URI", "integer"])},
                     "value": self.simple_type(depth + 1, False)}
+        if k == "string-literal":
+            return {"kind": "stringLiteral", "value": "vf" + self.pick(WORDS_U)}
         if k == "tuple":
             n = self.draw(st.integers(2, 3))
             return {"kind": "tuple", "items": [{"kind": "base", "name": self.pick(["string", "integer", "uinteger", "boolean", "decimal"])} for _ in range(n)]}
@@ -303,11 +307,11 @@ class Evolver:
             # productions that once exposed a defect (kept as a standing floor)
             "message-no-typename", "rust-keyword-name", "base-regexp", "empty-struct-property", "request-no-typename",
             "matrix", "same-name-different-nullness", "shared-registration-method", "diamond",
-            "message-regopts-no-params", "explicit-closed-enum"]
+            "message-regopts-no-params", "explicit-closed-enum", "and-registration-options", "deep-mixin", "confusing-message-names"]
     RUST_AND_PYTHON_KEYWORDS = ["in", "for", "as", "if", "else", "while", "continue", "break", "return", "async", "await", "try", "yield"]
 
     MATRIX_PRODUCTIONS = ["base", "ref-struct", "ref-enum", "ref-alias", "array", "map", "tuple", "ornull-first", "ornull-last", "literal",
-                          "array-literal", "ornull-literal", "array-ornull", "map-ornull"]
+                          "array-literal", "ornull-literal", "array-ornull", "map-ornull", "string-literal", "ornull-array-literal"]
 
     def e_matrix(self) -> None:
         """new structures whose properties cover every pair (name kind x type production x required/optional):
@@ -326,6 +330,16 @@ class Evolver:
                 while remaining and (names_left is None or names_left):
                     prod, opt = remaining.pop(0)
                     p = self.new_property(local, depth=1, force=prod, optional=opt)
+                    mark_i = len(props) % 4     # marks cycle through the properties: none / proposed / deprecated / since
+                    for m_ in ("proposed", "deprecated", "since", "sinceTags", "documentation"):
+                        p.pop(m_, None)
+                    if mark_i == 1:
+                        p["proposed"] = True
+                    elif mark_i == 2:
+                        p["deprecated"] = "use something else"
+                    elif mark_i == 3:
+                        p["since"] = "3.18.0"
+                        p["documentation"] = "Documented.\n@since 3.18.0"
                     if names_left is not None:
                         local.discard(p["name"])
                         p["name"] = names_left.pop(0)
@@ -384,6 +398,35 @@ class Evolver:
             return self.e_override_chain()
         if focus == "message":
             return self.e_new_message()
+        if focus == "and-registration-options":
+            for first in (True, False):
+                self.counter += 1
+                opts = self.pick([s for s in self.base_structs if s.endswith("Options") and not s.endswith("RegistrationOptions")] or self.base_structs)
+                items = [{"kind": "reference", "name": "TextDocumentRegistrationOptions"}, {"kind": "reference", "name": opts}]
+                if not any(s["name"] == "TextDocumentRegistrationOptions" for s in self.doc["structures"]):
+                    return
+                msg = {"method": f"vf/andOptions{self.counter}", "messageDirection": "clientToServer", "typeName": self.fresh_type_name("Vm") + "Request",
+                       "result": {"kind": "base", "name": "null"}, "params": self._struct_ref(),
+                       "registrationOptions": {"kind": "and", "items": items if first else items[::-1]}}
+                self.doc["requests"].append(msg)
+                self.edits.append({"edit": "E5-new-request", "method": msg["method"], "typeName": msg["typeName"], "params": msg["params"],
+                                   "result": msg["result"], "registrationOptions": msg["registrationOptions"]})
+            return
+        if focus == "deep-mixin":
+            b, mname, s = self.fresh_type_name("VfDb"), self.fresh_type_name("VfDx"), self.fresh_type_name("VfDy")
+            local: set = set()
+            self.doc["structures"].append({"name": b, "properties": [self.new_property(local), self.new_property(local)]})
+            self.doc["structures"].append({"name": mname, "properties": [self.new_property(local)], "extends": [{"kind": "reference", "name": b}],
+                                           "mixins": [{"kind": "reference", "name": self.pick([x for x in ("WorkDoneProgressParams", "PartialResultParams") if any(y["name"] == x for y in self.doc["structures"])] or [b])}]})
+            self.doc["structures"].append({"name": s, "properties": [self.new_property(local)], "mixins": [{"kind": "reference", "name": mname}]})
+            self.keep_inhabitable([p for st_ in self.doc["structures"][-3:] for p in st_["properties"]])
+            self.new_structs += [b, mname, s]
+            self.edits.append({"edit": "E1-diamond", "structures": [b, mname, s], "property": "(deep mixin)"})
+            return
+        if focus == "confusing-message-names":
+            self.e_new_message(is_request=False, with_type_name=True, type_name_infix="Request")
+            self.e_new_message(is_request=True, with_type_name=True, type_name_infix="Notification")
+            return self.e_new_message(is_request=False, with_type_name=False, method_word="cancelRequest")
         if focus == "message-regopts-no-params":
             self.e_new_message(is_request=True, registration="own", params=False)
             return self.e_new_message(is_request=False, registration="own", params=False)
@@ -447,6 +490,8 @@ class Evolver:
             vname = self.pick(WORDS_U) + str(i)
             if base == "string":
                 v: Any = self.pick(WORDS_L) + str(i)
+                if self.draw(st.integers(0, 4)) == 0:
+                    v += self.pick(["é", "\U0001F600", "-x.y", " z", "日本"])
             elif base == "uinteger":
                 v = i + self.draw(st.integers(0, 3)) * 10
             else:
@@ -484,9 +529,10 @@ class Evolver:
         return {"kind": "reference", "name": self.pick(self.new_structs * 3 + self.base_structs)}
 
     def e_new_message(self, with_type_name: Optional[bool] = None, is_request: Optional[bool] = None,
-                      registration: Optional[str] = None, params: Optional[bool] = None) -> None:
+                      registration: Optional[str] = None, params: Optional[bool] = None,
+                      type_name_infix: str = "", method_word: Optional[str] = None) -> None:
         self.counter += 1
-        word = self.pick(WORDS_L) + self.pick(WORDS_U)
+        word = method_word or (self.pick(WORDS_L) + self.pick(WORDS_U))
         if is_request is None:
             is_request = self.draw(st.booleans())
         prefix = self.pick(["vf/", "$/vf", "textDocument/vf", "vf/sub/"])
@@ -498,7 +544,7 @@ class Evolver:
         if with_type_name is None:
             with_type_name = self.draw(st.booleans())
         if with_type_name:
-            msg["typeName"] = self.fresh_type_name("Vm") + ("Request" if is_request else "Notification")
+            msg["typeName"] = self.fresh_type_name("Vm") + type_name_infix + ("Request" if is_request else "Notification")
         if params is True or (params is None and self.draw(st.booleans())):
             msg["params"] = self._struct_ref()
         if registration in ("shared", "own") or self.draw(st.integers(0, 2)) == 0:
